@@ -301,12 +301,9 @@ where
                         // Feed received data chunks to deserialization thread.
                         if let Some(tx) = &tx {
                             let res = loop {
-                                let tx_permit = match tx.reserve().await {
-                                    Ok(tx_permit) => tx_permit,
-                                    _ => {
-                                        break Ok(());
-                                    }
-                                };
+                                // When the deserializer has finished or failed early, the message
+                                // is still read to its end, since the sender may yet cancel it.
+                                let tx_permit = tx.reserve().await.ok();
 
                                 match self.receiver.recv_chunk().await {
                                     Ok(Some(chunk)) => {
@@ -315,7 +312,9 @@ where
                                             break Err(FeedError::MaxItemSizeExceeded);
                                         }
 
-                                        tx_permit.send(Ok(chunk));
+                                        if let Some(tx_permit) = tx_permit {
+                                            tx_permit.send(Ok(chunk));
+                                        }
                                     }
                                     Ok(None) => break Ok(()),
                                     Err(err) => break Err(FeedError::RecvChunkError(err)),
